@@ -115,7 +115,9 @@ Record inv (st : pg) : Prop := mkInv {
   i_mkeys : forall k, p_map st k <> None -> In k (p_mkeys st);
   i_noempty : forall k, p_map st k <> Some (mkG [] []);
   i_wnoempty : forall s, p_world st s <> Some [];
-  i_inoempty : forall s, p_index st s <> Some [] }.
+  i_inoempty : forall s, p_index st s <> Some [];
+  i_nd_rgmon : forall a, NoDup (r_gmon (rel_of st a));
+  i_nd_rwmon : forall a, NoDup (r_wmon (rel_of st a)) }.
 
 Lemma inv0 : inv pg0.
 Proof.
@@ -233,6 +235,8 @@ Proof.
     intros E; inversion E as [E1].
     assert (X : In g (nadd g (match p_index st s' with Some l => l | None => [] end))) by (apply In_nadd; auto).
     rewrite E1 in X. destruct X.
+  - intros a. unfold rel_of; simpl. destruct (nmem a kept); simpl; apply (i_nd_rgmon _ I).
+  - intros a. unfold rel_of; simpl. destruct (nmem a kept); simpl; apply (i_nd_rwmon _ I).
 Qed.
 
 (* ---------- leave ---------- *)
@@ -330,6 +334,8 @@ Proof.
   - simpl. intros k. unfold kupd. kcase (s, g) k; [apply norm_entry_ne|apply (i_noempty _ I)].
   - apply (i_wnoempty _ I).
   - simpl. intros s'. destruct (null mem'); [apply index_rem_ne|]; apply (i_inoempty _ I).
+  - intros a. rewrite Hr'. destruct (nmem a acts); simpl; apply (i_nd_rgmon _ I).
+  - intros a. rewrite Hr'. destruct (nmem a acts); simpl; apply (i_nd_rwmon _ I).
 Qed.
 
 (* ---------- monitor / monitor_scope / demonitor / demonitor_scope ---------- *)
@@ -448,6 +454,8 @@ Proof.
       rewrite E2, E1 in X. destruct X.
     + apply (i_wnoempty _ I).
     + apply (i_inoempty _ I).
+    + intros b. rewrite Hr. ncase a b; simpl; [apply NoDup_kadd|]; apply (i_nd_rgmon _ I).
+    + intros b. rewrite Hr. ncase a b; simpl; apply (i_nd_rwmon _ I).
 Qed.
 
 Lemma inv_monitor_scope st s a : inv st -> inv (monitor_scope st s a).
@@ -500,6 +508,8 @@ Proof.
       assert (X : In a (nadd a (world_of st s'))) by (apply In_nadd; auto).
       rewrite E1 in X. destruct X.
     + apply (i_inoempty _ I).
+    + intros b. rewrite Hr. ncase a b; simpl; apply (i_nd_rgmon _ I).
+    + intros b. rewrite Hr. ncase a b; simpl; [apply NoDup_nadd|]; apply (i_nd_rwmon _ I).
 Qed.
 
 Lemma inv_demonitor st g a : inv st -> inv (demonitor st g a).
@@ -541,6 +551,8 @@ Proof.
     + simpl. intros k'. unfold kupd. kcase k k'; [apply norm_entry_ne|apply (i_noempty _ I)].
     + apply (i_wnoempty _ I).
     + apply (i_inoempty _ I).
+    + intros b. rewrite rel_of_orel. simpl. rewrite Hr. ncase a b; simpl; [apply NoDup_krem|]; apply (i_nd_rgmon _ I).
+    + intros b. rewrite rel_of_orel. simpl. rewrite Hr. ncase a b; simpl; apply (i_nd_rwmon _ I).
   - (* no entry: a is not a listener of k, so k is not among its group monitors *)
     assert (Hk : ~ In k (r_gmon (rel_of st a))).
     { rewrite (i_rgmon _ I). unfold lis_of, gs_of. rewrite EG. simpl. tauto. }
@@ -587,6 +599,8 @@ Proof.
     + apply (i_noempty _ I).
     + simpl. intros s'. unfold nupd. ncase s s'; [apply norm_list_ne|apply (i_wnoempty _ I)].
     + apply (i_inoempty _ I).
+    + intros b. rewrite rel_of_orel. simpl. rewrite Hr. ncase a b; simpl; apply (i_nd_rgmon _ I).
+    + intros b. rewrite rel_of_orel. simpl. rewrite Hr. ncase a b; simpl; [apply NoDup_nrem|]; apply (i_nd_rwmon _ I).
   - assert (Hk : ~ In s (r_wmon (rel_of st a))).
     { rewrite (i_rwmon _ I). unfold world_of. rewrite EG. simpl. tauto. }
     assert (Hr2 : forall b, orel (rels' b) = rel_of st b).
@@ -712,6 +726,8 @@ Section Exit.
       destruct (kmem k (r_mem r)); auto. apply lclean_ne; auto.
     - simpl. intros s. unfold x_world1. destruct (nmem s (r_wmon r)); [apply wclean_ne|apply (i_wnoempty _ I)].
     - simpl. intros s. unfold x_idx2. destruct (p_index st s); [apply norm_list_ne|congruence].
+    - intros b. rewrite x_relof. ncase a b; simpl; [constructor|apply (i_nd_rgmon _ I)].
+    - intros b. rewrite x_relof. ncase a b; simpl; [constructor|apply (i_nd_rwmon _ I)].
   Qed.
 End Exit.
 
